@@ -10,6 +10,11 @@ AddUnused(t) == LetT(<<[n |-> "?", ann |-> TInt, def |-> Lit(OfSmall(0))]>>, Up(
 AddUnusedIn(g) == LET n == Len(g.defs) IN
    LetT(<<[n |-> "?", ann |-> TInt, def |-> Lit(OfSmall(0))]>> \o Mat([j \in 1..n |-> [g.defs[j] EXCEPT !.ann = Up(g.defs[j].ann, n, 1), !.def = Up(g.defs[j].def, n, 1)]], n),
         Up(g.b, n, 1))
+\* an unused definition added at the END of an existing group: the new member has index 0, so every member and every reference
+\* to the outside moves up by one
+AddUnusedLast(g) == LET n == Len(g.defs) IN
+   LetT(Mat([j \in 1..n |-> [g.defs[j] EXCEPT !.ann = Up(g.defs[j].ann, 0, 1), !.def = Up(g.defs[j].def, 0, 1)]], n) \o <<[n |-> "?", ann |-> TInt, def |-> Lit(OfSmall(0))]>>,
+        Up(g.b, 0, 1))
 \* a ground annotation of member j of a group is given a name: a definition  t : type = <annotation>  is added in front and the
 \* member is annotated with t (the members keep their indices, references to the outside move up by one)
 AliasAnnIn(g, j) == LET n == Len(g.defs) IN
@@ -72,6 +77,7 @@ IsDefPos(pos) == Len(pos) >= 2 /\ pos[Len(pos) - 1] = "def"
 Rewrites(t) ==
   {[rule |-> "add-unused-definition", t |-> AddUnused(t)]}
   \cup { [rule |-> "add-unused-definition-in-group", t |-> Replace(t, s.pos, AddUnusedIn(s.sub))] : s \in { x \in Subterms(t, <<>>, 0) : x.sub.k = "let" } }
+  \cup { [rule |-> "add-unused-definition-at-the-end-of-group", t |-> Replace(t, s.pos, AddUnusedLast(s.sub))] : s \in { x \in Subterms(t, <<>>, 0) : x.sub.k = "let" } }
   \cup UNION { { [rule |-> "name-annotation-in-group", t |-> Replace(t, s.pos, AliasAnnIn(s.sub, j))] : j \in { q \in 1..Len(s.sub.defs) : s.sub.defs[q].ann.k \in {"int", "bool"} } }
               : s \in { x \in Subterms(t, <<>>, 0) : x.sub.k = "let" } }
   \* not at a definition of a group: there it matters whether the definition is a syntactic value (a recursive function
